@@ -23,7 +23,6 @@ def body(chk: core.Check):
     _client.common(chk)
     quick = chk.tier == "quick"
     timeout = 240 if quick else 1200
-    chk.bound("settings_entries", 3)
     chk.bound("auto_populated_fields_per_entry", 2)
     chk.bound("crosshair_per_condition_timeout_s", timeout)
     chk.outside += ["RFC-4122 formatting of the value (uuid.uuid4 itself)"]
@@ -46,17 +45,20 @@ def body(chk: core.Check):
         chk, g, hm.C18_FUNCS, "populate", timeout,
         canaries=[("uuid-always", "uuid_create_book", "request_id populated even when the caller set it (in-memory mutant)")])
     # (1) validation
-    parts = [{"VERIF_PART": str(i)} for i in range(9)]
-    res = ch.run(H_VAL, ["validate"], timeout=timeout, env={}, jobs=chk.jobs, partitions=parts)
+    parts = [{"VERIF_PART": str(i)} for i in range(4)]
+    nmax = "2" if quick else "3"
+    chk.bound("settings_entries", int(nmax))
+    chk.stubs.append("yaml.dump (error text rendering inside the validator) replaced by a constant-time stub")
+    res = ch.run(H_VAL, ["validate_single", "validate_multi"], timeout=timeout, env={"VERIF_NMAX": nmax}, jobs=chk.jobs, partitions=parts)
     ch.settle(chk, H_VAL, res, "validate")
     for r in res[:2]:
-        chk.sample({"harness": "h18_validate.validate", "partition": r["env"], "status": r["status"], "seconds": r["seconds"]})
+        chk.sample({"harness": "h18_validate." + r["func"], "partition": r["env"], "status": r["status"], "seconds": r["seconds"]})
     tw = ch.run(H_VAL, ["twin"], timeout=120, env={}, jobs=1)[0]
     chk.twin("validate: a fully valid two-entry settings list is reachable", tw["status"] == "refuted")
-    cn = ch.run(H_VAL, ["validate"], timeout=timeout, env={"VERIF_CANARY": "no-dup", "VERIF_PART": "4"}, jobs=1)[0]
+    cn = ch.run(H_VAL, ["validate_multi"], timeout=timeout, env={"VERIF_CANARY": "no-dup", "VERIF_PART": "0", "VERIF_NMAX": "2"}, jobs=1)[0]
     chk.canary("validator without the duplicate-selector rejection (in-memory mutant)", cn["status"] == "refuted",
                cn.get("call", cn["status"]))
-    cn = ch.run(H_VAL, ["validate"], timeout=timeout, env={"VERIF_CANARY": "allow-required", "VERIF_PART": "0"}, jobs=1)[0]
+    cn = ch.run(H_VAL, ["validate_single"], timeout=timeout, env={"VERIF_CANARY": "allow-required", "VERIF_PART": "0"}, jobs=1)[0]
     chk.canary("validator accepting required fields (in-memory mutant)", cn["status"] == "refuted",
                cn.get("call", cn["status"]))
     # (3) generation path: duplicates in the YAML must be rejected by API.build / all_method_settings
